@@ -425,12 +425,24 @@ def check(prog, rep, tier):
     loader_payload(prog, rep)
     from .C05 import resupplied_rule
     resupplied_rule(prog, rep, "C01.loader-hash", ("BloomFilter", "BloomFilterOnDisk", "ExpandingBloomFilter", "RotatingBloomFilter"))
+    rep.rule("C01.check-hashes-like-add", "check() calls the hashing strategy with exactly the arguments add() uses (same depth)", floor=3)
+    from ..common import query_hashes_like_update
+    for ctx_ in ("BloomFilter", "BloomFilterOnDisk", "CountingBloomFilter", "ExpandingBloomFilter", "RotatingBloomFilter"):
+        bad_ = query_hashes_like_update(prog, ctx_, "check")
+        if bad_:
+            rep.bad("C01.check-hashes-like-add", f"{ctx_}.check", "other hash arguments than add", f"{bad_[1]}: for a strategy whose k-th hash depends on the requested depth "
+                    "the look-up probes positions the insertion never set, and an added key is reported absent", bad_[0].where())
+        else:
+            rep.ok("C01.check-hashes-like-add", f"{ctx_}.check")
 
 
 from ..selftest import Mutant, add_method, del_stmt, insert_stmt, replace_expr, replace_stmt, swap_binop
 
 _B, _E = "blooms/bloom.py", "blooms/expandingbloom.py"
 MUTANTS = [
+    Mutant("check() first probes with a depth-1 hash (wrong for a strategy whose hashes depend on the depth)", _B,
+           replace_stmt("BloomFilter", "check", "return self.check_alt(self.hashes(key))",
+                        "if not self.check_alt(self._hash_func(key, 1)[:0]):\n    return False\nreturn self.check_alt(self.hashes(key))"), rule="C01.check-hashes"),
     Mutant("frombytes drops the caller's hashing strategy", _B, replace_expr("BloomFilter", "frombytes", "blm._load(b, hash_function=blm.hash_function)", "blm._load(b)"), rule="C01.loader-hash"),
     Mutant("add_alt | -> ^", _B, swap_binop("BloomFilter", "add_alt", _ast.BitOr, _ast.BitXor), rule="C01.monotone"),
     Mutant("add_alt range(1, k)", _B, replace_expr("BloomFilter", "add_alt", "range(0, self._number_hashes)", "range(1, self._number_hashes)"), rule="C01.add-check"),
